@@ -11,7 +11,8 @@ Universe
   users      0 = None, 1 = U0 (no groups), 2 = U1 (group g1)
   roles      r1 : (U0, a1), (U1, a2), (U1, b1)            labels     l1 : a1, b2
 Result table order: for user in 0..2, for perm in (view, edit): has_perm for targets E0 E1 A0 A1 A2 A3 O0 O1 O2 O3; then can_view for the same
-targets; then to_json of each single object (True = serialised, False = PermissionError).
+targets; then to_json of each single object (True = serialised, False = PermissionError); then to_json([obj], include=[A.bs] or [B.a]) - which
+pulls in the related object (a1<->b1, a2<->b2) - once with everything already loaded, once in a fresh session with only the top object loaded.
 The iteration order of each entity._access_rules_[perm] set (it decides the result of the attribute branch) is reported with the table.
 """
 import json, sys
@@ -95,8 +96,24 @@ def main():
     def targets():
         return ENT + ATTR + [A.get(name='a1'), A.get(name='a2'), B.get(title='b1'), B.get(title='b2')]
 
+    def top_object(oi):
+        return [lambda: A.get(name='a1'), lambda: A.get(name='a2'), lambda: B.get(title='b1'), lambda: B.get(title='b2')][oi]()
+
+    def tojson_include(x, u):
+        """True = serialised (top object and everything reached through the relationship), False = PermissionError"""
+        inc = [A.bs] if isinstance(x, A) else [B.a]
+        try:
+            js = json.loads(db.to_json([x], include=inc, with_schema=False))
+        except core.PermissionError:
+            return False
+        # sanity: the related object really is in the output
+        n = sum(len(v) for v in js['objects'].values())
+        assert n == 2, js
+        return True
+
     def table():
         res = []
+        fresh = {0: [], 1: [], 2: []}
         with orm.db_session:
             tg = targets()
             for u in USERS:
@@ -110,9 +127,30 @@ def main():
                             db.to_json([x], with_schema=False); res.append(True)
                         except core.PermissionError:
                             res.append(False)
+                    # the same with the related objects pulled in through include=[relationship]; in this session every object is
+                    # already fully loaded
+                    for x in tg[6:]:
+                        res.append(tojson_include(x, u))
                 finally:
                     core.set_current_user(None)
-        return res
+        # ... and in a fresh session where only the top object has been loaded: the to-one side arrives as a seed (pk only) and is
+        # loaded by to_json itself, the collection side is fetched by the collection load
+        for u in USERS:
+            for oi in range(4):
+                core.set_current_user(u)
+                try:
+                    with orm.db_session:
+                        x = top_object(oi)
+                        res_cell = tojson_include(x, u)
+                finally:
+                    core.set_current_user(None)
+                fresh[u.uid if u is not None else 0].append(res_cell)
+        # table layout per user: 20 has_perm, 10 can_view, 4 to_json, 4 to_json+include (all loaded), 4 to_json+include (fresh session)
+        out = []
+        per = 38
+        for ui in range(3):
+            out += res[ui * per:(ui + 1) * per] + fresh[ui]
+        return out
 
     results = []
     mode = payload.get('mode', 'table')
